@@ -1,5 +1,5 @@
 """C04 — each computation runs at most once, and only on demand (machine level: histories without force/failure/deletion)."""
-from tcv import machine
+from tcv import machine, pipeline as pl
 from tcv.data_kinds import persisting
 
 RULE = ('seeded histories (8-30 operations) over 2-4 configurations of one generated pipeline (2-7 task classes, all data kinds '
@@ -100,6 +100,33 @@ def name_mode_inspection_probe(ctx):
 def run(ctx):
     machine.run_batch(ctx, ctx.n(60, 800), allow={'restart'}, oracle=oracle)
     name_mode_inspection_probe(ctx)
+    thread_probe(ctx)
+
+
+def thread_probe(ctx):
+    """a computation runs at most once — also when the value is asked for from several threads one after the other (a worker thread, then
+    the main thread): the object that holds the value is the same for every thread"""
+    import threading
+    from tcv import gen
+    root = ctx.tmpdir() / 'threads'
+    for k, kind in enumerate(['memory', 'json', 'memory', 'numpy'][:ctx.n(2, 4)]):
+        spec = {'classes': {'K0': {'name': 'w', 'group': '', 'params': [{'name': 'x'}], 'inputs': [], 'kind': kind, 'run_args': ['x']}},
+                'files': {'main.json': {'tasks': ['K0'], 'x': k}}, 'main': 'main.json', 'module': gen.fresh_modname()}
+        b = pl.materialize(spec, root / f't{k}', modname=spec['module'])
+        mod = b.module()
+        mod.RUNLOG.clear()
+        chain, err = pl.build(b, root / f't{k}' / 'data')
+        t = chain.tasks['w']
+        box = {}
+        th = threading.Thread(target=lambda: box.setdefault('v', t.value)); th.start(); th.join(30)
+        _ = t.value
+        th2 = threading.Thread(target=lambda: box.setdefault('v2', t.value)); th2.start(); th2.join(30)
+        case = {'probe': 'value requested from three threads in turn', 'kind': kind}
+        ctx.case(case); ctx.count('thread-probe')
+        runs = [r for r in mod.RUNLOG if r[0] == 'w']
+        if len(runs) != 1:
+            ctx.fail('a task ran more than once although its value was already computed', case, {'runs': len(runs)})
+        b.cleanup_module()
 
 
 def search(ctx, divergences):
